@@ -8,8 +8,8 @@ Local Open Scope Z_scope.
 (* ---- splitting ---- *)
 Fixpoint split_on (sep : Z) (cur : bytes) (s : bytes) : list bytes :=
   match s with
-  | [] => [rev cur]
-  | c :: r => if c =? sep then rev cur :: split_on sep [] r else split_on sep (c :: cur) r
+  | [] => [rev_append cur []]
+  | c :: r => if c =? sep then rev_append cur [] :: split_on sep [] r else split_on sep (c :: cur) r
   end.
 
 Definition words (s : bytes) : list bytes := split_on 32 [] s.
@@ -240,7 +240,7 @@ Definition show_node (p : ipath) (s : setting) : bytes :=
 
 (* preorder dump; [rp] is the reversed index path of [s] *)
 Fixpoint dump_tree (rp : list nat) (s : setting) : list bytes :=
-  show_node (rev rp) s ::
+  show_node (rev_append rp []) s ::
   (let 'Setting _ _ kids _ _ _ _ := s in
    (fix go (i : nat) (l : list setting) : list bytes :=
       match l with
